@@ -160,9 +160,10 @@ def show(t, depth=0):
 
 # ----------------------------------------------------------------- evaluation
 class PathResult:
-    __slots__ = ("blocks", "ret", "conds", "stores", "calls", "env", "drops")
+    __slots__ = ("blocks", "ret", "conds", "stores", "calls", "env", "drops", "infeasible")
 
     def __init__(self):
+        self.infeasible = False
         self.blocks = []
         self.ret = None
         self.conds = []     # (term, value | 'otherwise', bb)
@@ -411,6 +412,16 @@ class TermEval:
                         chosen = v
                         break
                 res.conds.append((d, chosen, bb))
+                # a test on a constant (typically a constant argument of an inlined helper) decides the branch: other paths are infeasible
+                cv = self._const_discr(d)
+                if cv is not None:
+                    real = t["otherwise"]
+                    for (v, tb) in t["targets"]:
+                        if v == cv:
+                            real = tb
+                            break
+                    if nxt is not None and nxt != real:
+                        res.infeasible = True
             elif k == "call":
                 argt = tuple(self.operand(env, a, body) for a in t["args"])
                 c = calls.get(bb)
@@ -440,6 +451,31 @@ class TermEval:
         res.env = env
         return res
 
+    def _const_discr(self, d):
+        """integer value of a switch operand that is a compile-time constant, else None"""
+        if not isinstance(d, tuple):
+            return None
+        if d[0] == "const" and isinstance(d[1], int) and not isinstance(d[1], bool):
+            return d[1]
+        if d[0] == "const" and isinstance(d[1], bool):
+            return 1 if d[1] else 0
+        if d[0] == "const" and d[1] in ("true", "false"):
+            return 1 if d[1] == "true" else 0
+        if d[0] == "discr":
+            x = d[1]
+            vname = adt = None
+            if isinstance(x, tuple) and x[0] == "agg" and x[1] == "adt":
+                adt, vname = x[2], x[3]
+            elif isinstance(x, tuple) and x[0] == "const" and isinstance(x[1], str) and "::" in x[1]:
+                adt, vname = x[1].rsplit("::", 1)
+            if vname is not None:
+                for name, a in self.facts.adts.items():
+                    if a.get("kind") == "enum" and (adt is None or name == adt or name.endswith("::" + adt.split("::")[-1]) or adt.endswith(name)):
+                        for i, v in enumerate(a["variants"]):
+                            if v.get("name") == vname:
+                                return i
+        return None
+
     def try_inline(self, callee, argt, depth, caller_res=None):
         """inline a crate-local callee that has exactly one normal path, no stores and only inlinable calls
         (getters, constructors, wrappers)"""
@@ -463,4 +499,5 @@ class TermEval:
         return r.ret
 
     def all_results(self, body, max_paths=MAX_PATHS):
-        return [self.eval_path(body, p) for p in self.paths(body, max_paths=max_paths)]
+        rs = [self.eval_path(body, p) for p in self.paths(body, max_paths=max_paths)]
+        return [r for r in rs if not getattr(r, "infeasible", False)]
